@@ -697,7 +697,15 @@ class Interp:
                     args[i_] = v_
             return self.run_fn(f, args, substs)
         if kind == 'model':
-            return target[1](self, args, target[2])
+            try:
+                return target[1](self, args, target[2])
+            except z3.Z3Exception as ze:
+                if 'cast to concrete Boolean' not in str(ze): raise
+                from models_fmt import concretize_int
+                args2 = [concretize_int(self, x) if (is_sym(x) and ((z3.is_bv(x) and x.size() != 32) or z3.is_bool(x))) else x for x in args]
+                if all(x is y for x, y in zip(args, args2)): raise Unsupported('model %s needs a concrete value: %s' % (text[:80], str(ze)[:80]))
+                if len(args2) and z3.is_bool(args[0]) if is_sym(args[0]) else False: args2[0] = bool(args2[0])
+                return target[1](self, args2, target[2])
         raise Unsupported('cannot resolve call: ' + text[:200])
 
 def base_name_of(ty):
